@@ -86,9 +86,51 @@ def multi_programs(seed, n):
         if len(p["packets"]) >= 3 and nm >= 2:
             out.append(dslgen.render(p))
     out.append("root packet NewOrder {\n    u32 Id,\n    repeat Leg {\n        u16 No,\n        string Sym,\n    },\n}\n\npacket CancelOrder {\n    u32 Id,\n    repeat Leg {\n        u16 No,\n        string Sym,\n    },\n}\n\npacket Amend {\n    Leg {\n        u16 No,\n        string Sym,\n    },\n}\n")
+    # every configured padding (char x side) over fields with and without their own padding: what a generator normalises in place
+    # in the CONFIGURATION's padding object is seen by every generator after it
+    for ch in ("'\\x00'", "'0'", "' '"):
+        for left in ("true", "false"):
+            out.append("options {\n    FixedStringPadChar = %s;\n    FixedStringPadFromLeft = %s;\n}\n\nroot packet R {\n    char[4] a,\n    @leftPad('0')\n    char[3] b,\n"
+                       "    zchar[5] c,\n    repeat char[2] d,\n    @rightPad('\\x00')\n    char[6] e,\n    u8 k,\n    match k as m {\n        1 : A,\n    },\n}\n\n"
+                       "packet A {\n    char[8] s,\n    repeat zchar[3] zs,\n}\n" % (ch, left))
     out.append("options {\n    FixedStringPadFromLeft = true;\n}\n\nroot packet R {\n    zchar[4] a,\n    @leftPad('\\x00')\n    char[3] b,\n    char[5] c,\n    u8 k,\n    match k as m {\n        1 : A,\n        2 : B,\n    },\n    u16 k2,\n    match k2 as m2 {\n        7 : B,\n        8 : C,\n    },\n}\n\npacket A {\n    zchar[2] z,\n    B b,\n}\n\npacket B {\n    C c,\n}\n\npacket C {\n    repeat zchar[3] zs,\n}\n")
     return out
 
+
+NAME_COLLISION = """options {
+    JavaPackage = "com.example.msg";
+    GoPackage = "msg";
+    GoModule = "example.com/msg";
+}
+
+root packet Feed {
+    u8 Kind,
+    match Kind as Body {
+        1 : Quote_Level2,
+        2 : QuoteLevel2,
+        3 : logon,
+        4 : Logon,
+    },
+}
+
+packet Quote_Level2 {
+    u8 a,
+}
+
+packet QuoteLevel2 {
+    u16 b,
+    string s,
+}
+
+packet logon {
+    u32 c,
+}
+
+packet Logon {
+    u64 d,
+    string t,
+}
+"""
 
 ROOTLESS = "packet A {\n    u8 x,\n}\n\npacket B {\n    A a,\n    string s,\n}\n\npacket C {\n    u16 k,\n    match k as m {\n        1 : A,\n        2 : B,\n    },\n}\n"
 
@@ -111,6 +153,16 @@ def run_c13(ctx):
                         {"dsl": t, "diff": d, "repetitions": k})
         elif "runs" in r:
             ctx.sample({"dsl": t[:200], "repetitions": k, "verdict": "all outputs byte-identical"}, 2)
+    # packet names that differ only in case / underscores: every target derives file and type names from them by case
+    # conversion, so two packets can claim one file; which one gets it must not depend on map order (judged per target)
+    for lang in ALL:
+        r = harness.run_ops([{"op": "gen", "text": NAME_COLLISION, "order": [lang], "fresh": True, "times": k}])[0]
+        ctx.count("compilations", k)
+        if r.get("differs"):
+            dd = r.get("diffAt") or {}
+            ctx.finding("nondeterministic/packet-names-collide/%s" % lang,
+                        "%d of %d compilations of a DSL whose packet names collide under case conversion differ (%s)" % (r["differs"], k, dd.get("file")),
+                        {"dsl": NAME_COLLISION, "diff": dd, "repetitions": k})
     # across processes: the real CLI twice
     hbin, cbin = build_harness()
     d = scratch()
@@ -354,16 +406,23 @@ def run_c16(ctx):
                     ctx.count("so_ok")
         # compile: explicit and implicit sub-command, flag subsets
         progs = [dslgen.render(dslgen.gen_program(rng, dslgen.Cfg())) for _ in range(4 if ctx.tier == "quick" else 40)]
+        # programs without a packet (an options / MetaData dictionary): the targets that accept them still have a file set
+        # (Rust: an empty lib.rs), and empty files are files
+        progs += ["options {\n    LittleEndian = true;\n}\n", "MetaData Types {\n    u32 Seq `s`,\n    char[4] Ccy `c`,\n}\n"]
         gens = harness.run_ops([{"op": "gen", "text": t, "order": ALL, "fresh": False} for t in progs])
         for t, g in zip(progs, gens):
-            if "runs" not in g or any("files" not in r for r in g["runs"]):
+            if "runs" not in g:
                 continue
-            want_all = {r["lang"]: r["files"] for r in g["runs"]}
+            usable = [r["lang"] for r in g["runs"] if "files" in r]
+            if len(usable) < len(ALL) and "packet" in t:
+                continue
+            if not usable:
+                continue
             f = os.path.join(d, "p.dsl")
             with open(f, "w") as fh:
                 fh.write(t)
             for trial in range(3 if ctx.tier == "quick" else 8):
-                sub = [x for x in ALL if rng.random() < 0.5] or [rng.choice(ALL)]
+                sub = [x for x in usable if rng.random() < 0.5] or [rng.choice(usable)]
                 # expected: generators run over one model in CLI order restricted to the subset
                 exp = harness.run_ops([{"op": "gen", "text": t, "order": [x for x in ALL if x in sub], "fresh": False}])[0]
                 want = {}
